@@ -123,30 +123,42 @@ Definition reopen (st : store) : store := mkstore (st_done st) (dedup_last (st_n
 
 Definition item_arg (it : item) : value := match it with Bare v => v | Wrapped o _ => o end.
 
-Definition calls_of (chain : list step) (todo : list value) : val :=
-  VL (flat_map (fun it => map (fun e => VL [VS (fst e); VS (key_of (snd e))]) (snd (call_log chain (item_arg it))))
-               (proxy_input todo)).
+Definition calls_of (chain : list step) (its : list item) : val :=
+  VL (flat_map (fun it => map (fun e => VL [VS (fst e); VS (key_of (snd e))]) (snd (call_log chain (item_arg it)))) its).
 
-Definition run_phase (K : skind) (st : store) (ph : phase) : result store * val :=
+(** the case's code: units digit = store kind (0 dictionary, 1 directory pinned, 2 directory with exact-name
+    retirement); tens = repairs present in the code under test as bits: 1 _proxy_input keeps falsy objects,
+    2 apply_to wraps every input in a source_proxy, 4 store writes replace an existing member.  With no repair bit the
+    pinned definitions ([apply_to], [proxy_input]) run, otherwise their [_v] variants. *)
+Definition variant_of (k : Z) : variant :=
+  let b := k / 10 in mkvariant (Z.odd b) (Z.odd (b / 2)) (Z.odd (b / 4)).
+
+Definition run_phase (k : Z) (st : store) (ph : phase) : result store * val :=
+  let K := kind_of (k mod 10) in
+  let V := variant_of k in
+  let pin := k / 10 =? 0 in
   let '(specs, inputs, sched, logging) := ph in
   let chain := rev (map mk_step specs) in
   let singles := VL (map (fun m => show_value (call chain m)) inputs) in
   (* list(app.as_completed(inputs)) of the composed app without writer *)
-  let asc := VL (map (fun it => show_value (result_data (source_wrapped chain it))) (proxy_input inputs)) in
-  match apply_to K chain st inputs sched logging with
+  let asc_items := if pin then proxy_input inputs else proxy_input_v V false inputs in
+  let asc := VL (map (fun it => show_value (result_data (source_wrapped chain it))) asc_items) in
+  let res := if pin then apply_to K chain st inputs sched logging else apply_to_v V K chain st inputs sched logging in
+  match res with
   | Exc e => (Exc e, VL [VE e; singles; asc])
   | Ok st' =>
       let todo := match collect K st [] inputs with Ok t => map snd t | Exc _ => [] end in
-      (Ok st', VL (show_store st' (dedup_last (st_nc st')) ++ [calls_of chain todo; singles; asc]))
+      let its := if pin then proxy_input todo else proxy_input_v V (v_wrapall V) todo in
+      (Ok st', VL (show_store st' (dedup_last (st_nc st')) ++ [calls_of chain its; singles; asc]))
   end.
 
-Fixpoint run_phases (K : skind) (st : store) (phs : list phase) : list val :=
+Fixpoint run_phases (k : Z) (st : store) (phs : list phase) : list val :=
   match phs with
   | [] => []
   | ph :: r =>
-      match run_phase K st ph with
+      match run_phase k st ph with
       | (Exc _, o) => [o]
-      | (Ok st', o) => o :: run_phases K (reopen st') r
+      | (Ok st', o) => o :: run_phases k (reopen st') r
       end
   end.
 
@@ -154,7 +166,7 @@ Definition case := (Z * list phase)%type.
 
 Definition run_case (c : case) : val :=
   let '(k, phs) := c in
-  VL (run_phases (kind_of k) (mkstore [] [] 0 1) phs).
+  VL (run_phases k (mkstore [] [] 0 1) phs).
 
 (** the hypotheses of the exactly-one theorem, decided on the identifiers of a case
     (used by the driver to know which cases the theorem covers) *)
